@@ -380,9 +380,10 @@ AdjCodedParts(val) ==
      ELSE LET i == UPartOf[q[2]]  c2 == q[2] - (i - 1) * PartSize       \* new test: part i, component c2 (of u_j's space)
               j == VPartOf[q[3]]  c1 == q[3] - (j - 1) * PartSize       \* new trial: part j, component c1 (of v_i's space)
           IN CConj(val[<<q[1], (i - 1) * PartSize + c1, (j - 1) * PartSize + c2>>][<< >>]))]
+RejResA == [rej |-> TRUE, ints |-> [k \in 1..NInt |-> [q \in APts |-> (<< >> :> C0)]], args |-> {}]
 AdjOut ==
   LET A == ArgSeq(FormArgs(NoDead, NoDead)) IN
-  IF ~HasParts THEN (IF Len(A) # 2 THEN RejRes
+  IF ~HasParts THEN (IF Len(A) # 2 THEN RejResA
                      ELSE [rej |-> FALSE, ints |-> [k \in 1..NInt |-> AdjSwap(store[form[k].root].val)], args |-> {}])
   ELSE [rej |-> FALSE, args |-> {},
         ints |-> [k \in 1..NInt |-> IF AsCoded THEN AdjCodedParts(store[form[k].root].val)
